@@ -74,7 +74,7 @@ class Engine:
         cfg = gd.gen_config(g, "sphinx")
         # the features whose data must cross the worker boundary or that touch shared state are always on
         for ext in ("dollarmath", "amsmath", "colon_fence", "substitution"):
-            if ext not in cfg["enable_extensions"] and g.random() < 0.8:
+            if ext not in cfg["enable_extensions"] and g.random() < 0.6:
                 cfg["enable_extensions"] = sorted(cfg["enable_extensions"] + [ext])
         if g.random() < 0.7:
             cfg["heading_anchors"] = g.choice([1, 2, 3])
@@ -128,7 +128,7 @@ class Engine:
                                  "read_chunks": {d: e.randrange(nchunks) for d in docnames},
                                  "write_chunks": {d: e.randrange(e.randint(1, 3)) for d in docnames},
                                  "sched": [e.randrange(0, 7) for _ in range(4 * len(docnames) + 8)]})
-        return {"engine": self.name, "files": files, "cfg": cfg, "builder": s.choice(["xml", "xml", "xml", "html"]),
+        return {"engine": self.name, "files": files, "cfg": cfg, "builder": s.choice(["xml", "xml", "html"]),
                 "variants": variants}
 
     def plan_size(self, plan) -> dict:
